@@ -27,6 +27,8 @@ CLAIMED = {
  "C16": ("exploration", "block.trials_per_sample() against the documented arithmetic (reference R-T) and the length of every factor's column in every sequence from IterateSATGen, RandomGen, CMSGen, UniGen and SMGen (virtual-clock world)", "reference-model oracle (R-T) over all strategies; the design generator carries most of the weight", "6 C16"),
  "C23": ("exploration", "weight-vs-copies metamorphic twin: each weighted level replaced by separately named copies (derived tables rewritten); both designs exhausted with IterateSATGen in one world; equal sets when the weighted factor is crossed, equal multisets when it is in no crossing; no hidden factor exposed", "metamorphic twin oracle; the design generator carries most of the weight", "6 C23"),
  "C24": ("exploration", "the four documented combinator laws as generator templates, both sides built from fresh objects and exhausted under the run's peer policy: same constructor outcome, same trial count, same solution multiset", "documented-equivalence (metamorphic) oracle", "6 C24"),
+ "C25": ("exploration", "Nest(outer, inner) and its operands exhausted in one world: structural check of every returned sequence straight from the statement (groups, constancy, representatives valid for outer, groups valid for inner, length), completeness by the product construction, associativity of nested Nest", "compositional (product-structure) oracle; the design generator carries most of the weight", "6 C25"),
+ "C26": ("exploration", "one constraint of each scoped kind placed on the inner block or on the combinator of Repeat/Merge, with and without preamble; exhausted solution set compared with the reference semantics using repetition windows (block constraints per repetition incl. preceding preamble trials, combinator constraints over the whole sequence)", "reference-model oracle (R-SCOPE windows); the design generator carries most of the weight", "6 C26"),
 }
 
 NA = {
